@@ -29,7 +29,8 @@ type c02case struct {
 }
 
 func c02universe(r *rand.Rand) []string {
-	segs := []string{"ab", "cd", "svc", "x1", "req", "in", "a", "q", "7"} // incl. one-character segments (prefix arithmetic at index 0/1)
+	// incl. one-character segments (prefix arithmetic at index 0/1) and long ones: names and wildcard prefixes reach the 36-byte limit
+	segs := []string{"ab", "cd", "svc", "x1", "req", "in", "a", "q", "7", "longsegment0", "eightchr", "x234567890"}
 	set := map[string]bool{}
 	for len(set) < 80 {
 		k := 1 + r.IntN(4)
@@ -436,7 +437,7 @@ func c02Worker(w *W) {
 func init() {
 	register(&Prop{
 		ID: "C02", Level: "exploration", MinDistinct: 30, Worker: c02Worker,
-		Rule: "each worker registers a seeded universe of 80 valid tags (1-4 segments over a 9-segment pool incl. one-character segments, with/without leading underscore, heavy prefix sharing) + the 2 built-in ones; cases: 1-4 sync loggers + optional root, each with a private recording appender; tag lists mix registered literals, unregistered literals, wildcards P_* for every proper prefix P in the universe and for whole registered tags, " +
+		Rule: "each worker registers a seeded universe of 80 valid tags (1-4 segments over a 12-segment pool incl. one-character segments and 8-12 character ones (names and wildcard prefixes up to the 36-byte limit), with/without leading underscore, heavy prefix sharing) + the 2 built-in ones; cases: 1-4 sync loggers + optional root, each with a private recording appender; tag lists mix registered literals, unregistered literals, wildcards P_* for every proper prefix P in the universe and for whole registered tags, " +
 			"blanks/empty entries/repeated entries, random key spelling; 1/3 of the cases carry one of the four stated errors (duplicate tag string across loggers, root with tags, logger without tags in 6 spellings, malformed wildcard in 8 shapes). Each map is Refreshed 3x (Destroy between; Go randomises map iteration each time) and one event per registered tag is routed. " +
 			"Oracle: literal owner, else longest proper underscore-delimited prefix wildcard, else root/console; exactly one sink per event. Non-trivial/distinct = distinct (error class | #loggers, #wildcards, nested wildcards present, root configured) classes among cases that matched.",
 		Assumptions: []string{"the bare wildcard '_*' (empty prefix) and wildcards with a second '*' that still end in '_*' are not generated"},
